@@ -108,6 +108,9 @@ func c15BaseIntegrations() []config.Integration {
 		Unique: [][]string{{"ig_name", "src_name", "block_num", "tx_idx"}}}
 	b.Block = []dig.BlockData{{Name: "tx_hash", Column: "tx_hash"}, {Name: "block_time", Column: "block_time"}}
 	b.Sources = []config.Source{{Name: "src1", Start: 1}}
+	// the dependency list is an exported field without a JSON tag: a configuration (file or dashboard) may
+	// spell it out under the key "Dependencies"; it is only ever a query PARAMETER
+	b.Dependencies = []string{"igz"}
 	// a second and a third integration writing to iga's table: shared tables are merged for the DDL,
 	// but every integration's own column types, unique and index lists are spliced by Migrate
 	a.Table.Unique = [][]string{{"ig_name", "src_name", "block_num", "tx_idx", "log_idx", "ev_to"}}
